@@ -35,6 +35,61 @@ func c14RealTimeRun(c *core.Collector, x *Ctx, short bool) {
 		n = 16
 	}
 	var wg sync.WaitGroup
+	// re-request after a long quiet spell: the server wrote to this terminal once (a heartbeat reply), then nothing for 11 s —
+	// longer than any deadline it may have armed on the socket for that write — and the data that triggers the re-request is
+	// itself not answered (a packet of another message): the 0x8003 is the first thing the server writes after the pause
+	for i := 0; i < 3; i++ {
+		wg.Add(1)
+		go func(i int) {
+			defer wg.Done()
+			t, err := svc.Dial(srv.Addr, i%2 == 1, fmt.Sprintf("%d", 5590000+i))
+			if err != nil {
+				c.Inconclusive()
+				return
+			}
+			defer t.Close()
+			c.Eval()
+			bad := func(sig, detail string) {
+				c.Violate("realtime|"+sig, fmt.Sprintf("quiet-spell scenario %d: %s", i, detail), map[string]any{"scenario": "quiet-spell", "index": i})
+			}
+			t.Write(t.Frame(0x0002, 1, nil))
+			if rx, ok, to := t.Next(30 * time.Second); to || !ok || rx.F == nil || rx.F.ID != 0x8001 {
+				c.Inconclusive()
+				return
+			}
+			first := uint16(900 + i)
+			t.Write(t.SubFrame(0x0801, first, 3, 1, bytes.Repeat([]byte{0x31}, 40)))
+			time.Sleep(time.Duration(10500+500*i) * time.Millisecond)
+			// the trigger: packet 1 of another message (opens a second transfer, gets no reply)
+			t.Write(t.SubFrame(0x0704, 0x300, 2, 1, bytes.Repeat([]byte{0x32}, 20)))
+			want := []byte{byte(first >> 8), byte(first), 2, 0, 2, 0, 3}
+			rx, ok, to := t.Next(4 * time.Second)
+			if to {
+				// nothing came: is the server merely slow? a heartbeat answered at once says it is alive and owes the re-request
+				t0 := time.Now()
+				t.Write(t.Frame(0x0002, 2, nil))
+				rxp, okp, top := t.Next(5 * time.Second)
+				if !top && okp && rxp.F != nil && rxp.F.ID == 0x8001 && time.Since(t0) < 500*time.Millisecond {
+					bad("after >= 5.3 s idle the next inbound data did not yield exactly one re-request", "11 s after the server's last write to this terminal, the packet of another message produced no 0x8003 within 4 s; a heartbeat sent then was answered at once")
+				} else {
+					c.Inconclusive()
+				}
+				return
+			}
+			if !ok || rx.F == nil {
+				bad("connection closed or undecodable frame during a valid conversation", "after the quiet spell")
+				return
+			}
+			if rx.F.ID != 0x8003 || !bytes.Equal(rx.F.Body, want) {
+				bad("re-request body is not (first packet's serial, count, ascending missing numbers)", fmt.Sprintf("got %04x %x want 8003 %x", rx.F.ID, rx.F.Body, want))
+				return
+			}
+			if rx.F.Serial != 1 {
+				bad("platform serial not consecutive", fmt.Sprintf("re-request after the quiet spell carries %d, want 1", rx.F.Serial))
+			}
+			c.Count("re_requests_after_an_11_s_quiet_spell", 1)
+		}(i)
+	}
 	for i := 0; i < n; i++ {
 		wg.Add(1)
 		go func(i int) {
